@@ -294,6 +294,7 @@ pub fn gen_case(prop: &str, thorough: bool, weak: bool, rng: &mut Rng) -> Case {
         "C11" if rng.below(3) == 0 => return gen_c11_readonly(rng, cfg, thorough),
         "C07" | "C01" | "C03" if rng.below(4) == 0 => return gen_aba_storm(rng, cfg, thorough),
         "C07" | "C10" if rng.below(5) == 0 => return gen_guard_roundtrip(rng, cfg, thorough),
+        "C12" | "C03" if rng.below(6) == 0 => return gen_alternating_fallback(rng, cfg, thorough),
         "C18" if rng.below(5) == 0 => {
             // user code inside the library that is not a destructor: projections of Map /
             // MapCache, made to panic on their k-th call
@@ -583,6 +584,60 @@ fn gen_guard_roundtrip(rng: &mut Rng, mut cfg: RunCfg, thorough: bool) -> Case {
     });
     cfg.p_fast_slot_refused = choose(rng, &[0, 0, 48]);
     cfg.p_switch_after_mark = choose(rng, &[0, 64, 160]);
+    Case {
+        cfg,
+        prog: Program {
+            conts,
+            threads,
+            final_order: rng.below(16) as u8,
+        },
+    }
+}
+
+/// C12 / C03 (alternating slow-path loads): readers whose every load takes the helping path
+/// alternate between two or three fallback-only containers while one writer per container keeps
+/// storing. A helper that is slow between looking at the reader's announced address and
+/// re-checking its control word meets the reader two transactions later, on the first container
+/// again.
+fn gen_alternating_fallback(rng: &mut Rng, mut cfg: RunCfg, thorough: bool) -> Case {
+    let n_conts = 2 + rng.below(2) as usize;
+    let kinds = [CKind::AF, CKind::BF, CKind::OF];
+    let conts: Vec<ContSpec> = (0..n_conts)
+        .map(|i| ContSpec {
+            kind: kinds[(i + rng.below(3) as usize) % 3],
+            init: Init::New,
+        })
+        .collect();
+    let mut threads = vec![ThreadProg::default()];
+    let n_readers = 1 + rng.below(2) as usize;
+    for _ in 0..n_readers {
+        let mut ops = Vec::new();
+        let start = rng.below(n_conts as u64) as usize;
+        for i in 0..(4 + rng.below(if thorough { 6 } else { 4 }) as usize) {
+            let c = ((start + i) % n_conts) as u8;
+            ops.push(match rng.below(4) {
+                0 => Op::Load { c, g: (i % 4) as u8 },
+                1 => Op::LoadFull { c, h: (i % 3) as u8 },
+                _ => Op::LoadDrop { c },
+            });
+        }
+        threads.push(ThreadProg { ops, top: true });
+    }
+    for c in 0..n_conts {
+        let mut ops = Vec::new();
+        for _ in 0..(1 + rng.below(3)) {
+            ops.push(if rng.below(4) == 0 {
+                Op::Swap { c: c as u8, v: V::New, h: 0 }
+            } else {
+                Op::Store { c: c as u8, v: V::New }
+            });
+        }
+        threads.push(ThreadProg { ops, top: true });
+    }
+    cfg.p_stall_after_mark = choose(rng, &[24, 80, 120]);
+    cfg.p_stall_any = choose(rng, &[0, 6, 20]);
+    cfg.p_switch_after_mark = choose(rng, &[0, 64]);
+    cfg.p_fresh = choose(rng, &[128, 160, 192]);
     Case {
         cfg,
         prog: Program {
